@@ -74,7 +74,7 @@ def _cases(draw):
     b = draw(S.operand(d, classes=classes, max_len=5, min_len=1, zero_prob=0.0))
     opk = draw(st.sampled_from(["infix", "infix", "infix", "method"]))
     op = draw(st.sampled_from(sorted(INFIX))) if opk == "infix" else draw(st.sampled_from(METHODS_ONLY + list(METHOD.values())))
-    case = {"kind": kind, "cfg": cfg, "a": a, "b": b, "op": op, "opk": opk}
+    case = {"kind": kind, "cfg": cfg, "a": a, "b": b, "op": op, "opk": opk, "wrapper": draw(st.integers(0, 3)) == 0}
     if kind in ("array", "setitem"):
         shape = draw(st.sampled_from([[3], [2], [2, 3], [3, 2], [1, 2]]))
         case["shape"] = shape
@@ -190,12 +190,12 @@ def _number(kind, s):
 def evaluate(case):
     import numpy as np
     cfg, kind, op, opk = case["cfg"], case["kind"], case["op"], case["opk"]
-    alg = kd.build_algebra(cfg)
+    alg = kd.build_algebra(cfg, wrapper=bool(case.get("wrapper")))
     d = len(cfg["sig"])
     ka, kb = case["a"]["keys"], case["b"]["keys"]
     fa = [float(frac(v)) for v in case["a"]["vals"]]
     fb = [float(frac(v)) for v in case["b"]["vals"]]
-    labels = [f"kind:{kind}", f"op:{op}", f"d:{d}"]
+    labels = [f"kind:{kind}", f"op:{op}", f"d:{d}"] + (["opt:wrapper"] if case.get("wrapper") else [])
     counters = {}
     nontrivial = False
     desc = f"{op} ({opk}) keys {ka} / {kb}"
@@ -267,6 +267,22 @@ def evaluate(case):
         if got.shape != model.shape or not np.allclose(got, model):
             raise Violation("setitem", "setitem", f"after X[{idx}] = {how} the coefficients differ from the numpy model (shape {shape}, "
                             f"{case['container']}): got {got.tolist()}, expected {model.tolist()}")
+        # a right-hand side holding the same blades in another key order: refused, or assigned blade by blade
+        if len(ka) >= 2 and how != "scalar":
+            X2 = kd.mk_raw(alg, ka, np.array(A) if case["container"] == "ndarray" else [np.array(r) for r in A])
+            model2 = np.array(A)
+            perm = list(range(len(ka)))[::-1]
+            src_vals = np.stack([np.asarray(model2[i], dtype=float) * 3 + 1 for i in range(len(ka))])
+            rhs2 = kd.mk_raw(alg, [ka[i] for i in perm], np.array([src_vals[i] for i in perm]) if case["container"] == "ndarray"
+                             else [np.array(src_vals[i]) for i in perm])
+            sel = (slice(None),) + (idx if isinstance(idx, tuple) else (idx,))
+            r2 = _obs(lambda: X2.__setitem__(idx, rhs2[idx]))
+            if r2[0] == "ok":
+                model2[sel] = src_vals[sel]
+                got2 = np.array([np.asarray(v, dtype=float) for v in X2.values()])
+                if got2.shape != model2.shape or not np.allclose(got2, model2):
+                    raise Violation("setitem", "setitem", f"X[{idx}] = Y[{idx}] with Y holding the same blades in key order {[ka[i] for i in perm]} (X: {ka}) was "
+                                    f"accepted but wrote coefficients to other blades: got {got2.tolist()}, blade-wise expected {model2.tolist()}")
         # mismatching keys must raise
         if len(ka) >= 1:
             other_keys = [k for k in range(2 ** d) if k not in ka][:len(ka)]
@@ -287,6 +303,12 @@ def evaluate(case):
             got = _obs(lambda: _apply(op, opk, y, num))
             exp = _obs(lambda: _apply(op, opk, y, smv))
         _same(got, exp, "number-as-scalar", op, f"{case['numkind']}({num}) {'left' if case['side'] == 'l' else 'right'} of {desc}")
+        if len(kb) > 1:
+            # the same multivector stored in another key order, then the original again (each layout is its own generated function)
+            yp = kd.mk_raw(alg, kb[::-1], list(fb)[::-1])
+            for what, yy in (("re-ordered storage", yp), ("original storage after the re-ordered call", y)):
+                g2 = _obs(lambda: (_apply(op, opk, num, yy) if opk == "infix" else _apply_alg(alg, op, opk, num, yy)) if case["side"] == "l" else _apply(op, opk, yy, num))
+                _same(g2, exp, "number-as-scalar", op, f"{case['numkind']}({num}) with the multivector in {what} (keys {list(yy.keys())}, wrapper={bool(case.get('wrapper'))}), {desc}")
         nontrivial = case["side"] == "l" and op in ("-", "/", ">>", "@", "sub", "div", "sw", "proj", "lc", "rc")
         labels.append(f"num:{case['numkind']}")
         if case["side"] == "l":
